@@ -325,7 +325,7 @@ func (e effective) key() string {
 
 func main() {
 	run := report.New("C19", "exploration")
-	run.Rule("assignments over 13 documented options (mode, work_dir, storage_type, update_interval, signature_validation_mode, crl_urls, crl_files, trusted_signature_certs_files, crl_fetch_mode, crl_cdp_strict, default_cache_duration, ocsp_aia_strict, trusted_responder_certs_files): every option alone, all pairs of (option, value) through a greedy pairwise cover, and seeded random subsets; each assignment is rendered as JSON and as Caddyfile, both are loaded (and loaded a second time after Cleanup, as a configuration reload does; work_dir spelt with trailing slash / dot segment / doubled slash in rotation) the way Caddy loads a guest module (inline key, strict JSON, Provision; Caddyfile via UnmarshalModule + JSONModuleObject first); oracle: both load, their exported effective configurations are equal to each other and to the documented defaults applied to the assignment, and three behavioural probes (listed certificate, unavailable strict CDP, unavailable strict responder) agree with the mode table; invalid variants (misspelt key at each nesting level, unknown enum, bad duration, non-boolean, missing argument, missing file, missing/non-directory work_dir) must fail to load in both syntaxes; non-trivial = assignment with >= 2 options set (valid) or invalid variant that was rejected in both syntaxes; distinct = assignment text")
+	run.Rule("assignments over 13 documented options (mode, work_dir, storage_type, update_interval, signature_validation_mode, crl_urls, crl_files, trusted_signature_certs_files, crl_fetch_mode, crl_cdp_strict, default_cache_duration, ocsp_aia_strict, trusted_responder_certs_files): every option alone, all pairs of (option, value) through a greedy pairwise cover, and seeded random subsets; each assignment is rendered as JSON and as Caddyfile, both are loaded (and loaded a second time after Cleanup, as a configuration reload does, and a third time after a referenced trusted-certificate file was replaced by the re-certified CA; work_dir spelt with trailing slash / dot segment / doubled slash in rotation) the way Caddy loads a guest module (inline key, strict JSON, Provision; Caddyfile via UnmarshalModule + JSONModuleObject first); oracle: both load, their exported effective configurations are equal to each other and to the documented defaults applied to the assignment, and three behavioural probes (listed certificate, unavailable strict CDP, unavailable strict responder) agree with the mode table; invalid variants (misspelt key at each nesting level, unknown enum, bad duration, non-boolean, missing argument, missing file, missing/non-directory work_dir) must fail to load in both syntaxes; non-trivial = assignment with >= 2 options set (valid) or invalid variant that was rejected in both syntaxes; distinct = assignment text")
 	run.Assume("the Caddyfile form is the one documented in the README (crl_url / crl_file / trusted_signature_cert_file / trusted_responder_cert_file repeated per list element)")
 	scratch, _ := report.Scratch("C19")
 	sut.QuietStderr(filepath.Join(scratch, "stderr.log"))
@@ -360,6 +360,15 @@ func main() {
 	// the issuing CA after a key roll-over: same subject name, another key
 	rolled := w.Root.Issue(pki.CertOpts{RawSubject: w.Int.Cert.RawSubject, IsCA: true})
 	rolledPEM := pki.WritePEM(filepath.Join(scratch, "int-rolled.pem"), rolled.Cert)
+	// a trusted-certificate file whose content is replaced between loads (the issuing CA re-certified: same name and key,
+	// another serial): every load has to read the file as it is at that moment
+	intAlt := w.Root.Issue(pki.CertOpts{RawSubject: w.Int.Cert.RawSubject, IsCA: true, Key: w.Int.Key})
+	rotPEM := pki.WritePEM(filepath.Join(scratch, "int-rotating.pem"), w.Int.Cert)
+	rotN := 0
+	rotate := func() {
+		rotN++
+		pki.WritePEM(rotPEM, []*x509.Certificate{w.Int.Cert, intAlt.Cert}[rotN%2])
+	}
 	w.CRL.Set("/a.crl", origin.Good(crlDER))
 	w.CRL.Set("/b.crl", origin.Good(crlDER))
 	w.CRL.Set("/bad.crl", origin.Status(500, []byte("down")))
@@ -373,12 +382,12 @@ func main() {
 		"signature_validation_mode":     {"none", "verify_log", "verify"},
 		"crl_urls":                      {urlA, urlA + "|" + urlB},
 		"crl_files":                     {crlFile, crlLink, crlFile + "|" + crlOdd},
-		"trusted_signature_certs_files": {intPEM, pemLink, rootPEM + "|" + intPEM, rolledPEM + "|" + intPEM},
+		"trusted_signature_certs_files": {intPEM, pemLink, rootPEM + "|" + intPEM, rolledPEM + "|" + intPEM, rotPEM},
 		"crl_fetch_mode":                {"fetch_actively", "fetch_background"},
 		"crl_cdp_strict":                {"true", "false"},
 		"default_cache_duration":        {"10m", "0s"},
 		"ocsp_aia_strict":               {"true", "false"},
-		"trusted_responder_certs_files": {intPEM, pemLink + "|" + rootPEM, intPEM + "|" + rolledPEM},
+		"trusted_responder_certs_files": {intPEM, pemLink + "|" + rootPEM, intPEM + "|" + rolledPEM, rotPEM + "|" + intPEM},
 	}
 	optKeys := make([]string, 0, len(values))
 	for k := range values {
@@ -529,6 +538,7 @@ func main() {
 		}
 		run.Eval(1)
 		desc := a0.String()
+		rotate()
 		want := expectedOf(a0, intHash)
 		var got [2]effective
 		var probes [2]string
@@ -565,6 +575,25 @@ func main() {
 				break
 			} else {
 				l2nd.cancel()
+			}
+			if strings.Contains(string(raw), "int-rotating.pem") {
+				// reload after the trusted-certificate file was replaced
+				rotate()
+				l3, err := loadJSON(raw)
+				if err != nil {
+					ok = false
+					run.Violation("valid-assignment.reload-failed."+formName, fmt.Sprintf("%s: %s form not loaded again after a trusted certificate file was replaced: %v\n%s", desc, formName, err, raw), &report.Replay{Case: desc, Files: map[string][]byte{"config.json": raw}})
+					break
+				}
+				got3, want3 := effectiveOf(l3.val), expectedOf(a0, intHash)
+				l3.cancel()
+				rotate()
+				run.Count("reloads_after_file_replaced", 1)
+				if got3.key() != want3.key() {
+					ok = false
+					run.Violation("reload-ignores-replaced-file."+formName+"."+diffField(got3, want3), fmt.Sprintf("%s: %s form reloaded after %s was replaced yields %s, the files now give %s", desc, formName, rotPEM, got3.key(), want3.key()), &report.Replay{Case: desc, Files: map[string][]byte{"config": raw}})
+					break
+				}
 			}
 			if got[form].key() != want.key() {
 				ok = false
